@@ -13,7 +13,7 @@ def run(chk):
     rng = random.Random(chk.seed)
     n = 1500 if chk.tier == 'quick' else 30000
     k = 2 if chk.tier == 'quick' else 3
-    chk.rule = ('%d generated derivations of SourceFile, each rendered canonically and in %d random layouts; 1676 enumerated small derivations around the type-parameter / array-length ambiguity, with and without optional commas; oracle: the erased, normalised implementation tree equals the derivation tree; first differing path reported.  '
+    chk.rule = ('%d generated derivations of SourceFile, each rendered canonically and in %d random layouts; 1676 enumerated small derivations around the type-parameter / array-length ambiguity, with and without optional commas; oracle: the erased, normalised implementation tree equals the derivation tree; first differing path reported; control-header probes: every composite literal written is a CompositeLit node.  '
                 'non-trivial: distinct program texts with at least one declaration.' % (n, k))
     progs = genprog.programs(rng, n)
     cases, exp = [], []
@@ -45,6 +45,29 @@ def run(chk):
         else:
             chk.oracle_fail('tree-enum:' + ':'.join(name.split(':')[:2]), 'file', t, {'path': d[0], 'implementation': json.dumps(d[2])[:200]}, {'derivation': json.dumps(d[1])[:200]}, f'the tree differs from the derivation ({name})')
     chk.count('enumerated', ec, [t for _, _, t in en])
+    # control-header probes: every `T{` written in a probe is, by the grammar, a composite literal of type T (inside
+    # parentheses, inside a function literal's body, or after the statement); the accepted tree must hold exactly
+    # that many CompositeLit nodes of type T — a block read in place of a literal value loses one
+    hp = [('file', t) for t in genprog.header_probes()]
+    a4, b4 = run_both(chk, 'header-probes', hp, robust=True)
+
+    def lits(v):
+        if isinstance(v, dict):
+            n = 0
+            for k_, x in v.items():
+                if k_ == 'CompositeLit' and isinstance(x, dict) and isinstance(x.get('typ'), dict) and x['typ'].get('Ident', {}).get('name') == 'T': n += 1
+                n += lits(x)
+            return n
+        if isinstance(v, list): return sum(lits(x) for x in v)
+        return 0
+    for (m, t), x in zip(hp, a4):
+        kx, vx = outcome(x)
+        if kx != 'ok': continue
+        want, got = t.count('T{'), lits(vx)
+        if want != got:
+            chk.oracle_fail('header-probe:literal-count', m, t, {'composite literals of type T in the tree': got}, {'written in the text': want}, 'a composite literal written in the text is not a CompositeLit node of the tree (read as an operand followed by a block)')
+        else: same += 1
+    chk.count('header-probes', hp, [t for m, t in hp])
     chk.extra['trees_equal'] = same
     chk.extra['coverage_matrix_production_x_context'] = genprog.coverage_matrix()
     for (m, s) in cases[1:8:3]:
